@@ -310,7 +310,7 @@ func execKill(s *ev.Shard, b *sandbox.Box, c KillCase) *rp.Fail {
 				s.Class("fault_truncated_cache")
 			}
 		case "run":
-			entries, err := model.Walk(b.Proj)
+			entries, err := model.WalkNoFollow(b.Proj)
 			if err != nil {
 				return &rp.Fail{Sig: "harness", Msg: err.Error()}
 			}
